@@ -1567,8 +1567,11 @@ func (g *gen) block(c *ctx, n int) []*Stmt {
 			if len(s.M.Keys) > 0 && !g.cfg.NoDel && r.Chance(15) {
 				out = append(out, s)
 				s = &Stmt{Op: "expire", M: s.M, Keys: s.Keys, Dur: "1h", DurNs: 3600e9}
-				if r.Bool() {
+				switch r.Intn(6) {
+				case 0, 1:
 					s.Dur, s.DurNs = "30m", 1800e9
+				case 2:
+					s.Dur, s.DurNs = "-1s", -1e9 // a negative delay: nothing to wait for, a plain del
 				}
 				g.feat("stmt/del-after")
 			}
